@@ -15,7 +15,7 @@ func VH_C03_join() {
 	p := v.String("p", n)
 	isDir := v.Bool("dir")
 	var val Validator
-	err := val.HandleChange(ChangeKindAdd, p, statInfoFor(isDir), nil)
+	err := val.HandleChange(ChangeKindAdd, p, vh_statInfoFor(isDir), nil)
 	v.Observe("accepted", err == nil)
 	if err != nil {
 		v.Cover("rejected")
@@ -26,7 +26,7 @@ func VH_C03_join() {
 	j := filepath.Join(dest, p)
 	v.Observe("joined", j)
 	v.Assert(j == dest+"/"+p, "Join(dest, accepted path) is dest/p: strictly inside dest")
-	v.Assert(specWellFormed(p), "accepted path is component-wise well formed")
+	v.Assert(vh_specWellFormed(p), "accepted path is component-wise well formed")
 }
 
 // VH_C03_join2: the same for a path accepted as the child of an accepted directory.
@@ -35,11 +35,11 @@ func VH_C03_join2() {
 	d := v.String("d", v.Choose("ld", n)+1)
 	c := v.String("c", v.Choose("lc", n)+1)
 	var val Validator
-	if val.HandleChange(ChangeKindAdd, d, statInfoFor(true), nil) != nil {
+	if val.HandleChange(ChangeKindAdd, d, vh_statInfoFor(true), nil) != nil {
 		return
 	}
 	p := d + "/" + c
-	err := val.HandleChange(ChangeKindAdd, p, statInfoFor(v.Bool("dir")), nil)
+	err := val.HandleChange(ChangeKindAdd, p, vh_statInfoFor(v.Bool("dir")), nil)
 	v.Observe("accepted", err == nil)
 	if err != nil {
 		v.Cover("rejected")
@@ -48,10 +48,10 @@ func VH_C03_join2() {
 	v.Cover("accepted")
 	const dest = "/dest"
 	v.Assert(filepath.Join(dest, p) == dest+"/"+p, "Join(dest, accepted child path) is dest/p")
-	v.Assert(specWellFormed(p), "accepted child path is component-wise well formed")
+	v.Assert(vh_specWellFormed(p), "accepted child path is component-wise well formed")
 }
 
-func statFor(class int, link string) *types.Stat {
+func vh_statFor(class int, link string) *types.Stat {
 	st := &types.Stat{Linkname: link}
 	switch class {
 	case 0:
@@ -76,7 +76,7 @@ func VH_C03_links() {
 		p := v.String("p", v.Choose("lp", n)+1)
 		link := v.String("l", v.Choose("ll", n+1))
 		class := v.Choose("class", 3)
-		st := statFor(class, link)
+		st := vh_statFor(class, link)
 		st.Path = p
 		if err := ov.HandleChange(ChangeKindAdd, p, &StatInfo{st}, nil); err != nil {
 			v.Cover("order-rejected")
